@@ -85,6 +85,7 @@ func checkC01(c *Ctx) {
 	// ---- C01-CYCLE: printing and Show terminate on cyclic scope graphs because the Seen set is threaded
 	c.checkSeenThreaded()
 	c.checkDataRecursion(br)
+	c.checkNilArguments(br)
 
 	// ---- C01-TA
 	for _, f := range c.zygoFuncs() {
